@@ -59,8 +59,9 @@ func c07SlotPaired(c *Check, a *Anchors) {
 			}
 			n++
 			key := ordinal(ord, l+"@"+fnDisplay(fb))
-			// the result must be bound, and at every exit after the call the bound closure must have been deferred
-			bound := false
+			// the result must be bound, and at every exit after the call the bound closure must have been deferred (direct
+			// form: nothing is returned; the opposite operation must have been deferred at every exit)
+			bound := a.SlotDirect
 			if as, ok := pm[call].(*ast.AssignStmt); ok && len(as.Lhs) == 1 {
 				if id, ok := as.Lhs[0].(*ast.Ident); ok && id.Name != "_" {
 					bound = true
@@ -76,7 +77,7 @@ func c07SlotPaired(c *Check, a *Anchors) {
 			okAll, where := bound, ""
 			if bound {
 				check := func(st Facts, pos token.Pos) {
-					if st.Has("called:"+l) && !st.Has("deferred:ret("+l+")") && pos > call.Pos() {
+					if st.Has("called:"+l) && !st.Has(a.slotUndoDeferred(l)) && pos > call.Pos() {
 						okAll, where = false, c.P.Pos(pos)
 					}
 				}
@@ -107,7 +108,7 @@ func c07SlotStates(c *Check, a *Anchors) {
 	for call, l := range f.Labels {
 		if l == "dedup" {
 			st := f.At[call]
-			c.Decide(st.Has("called:acquire") && st.Has("deferred:ret(acquire)"), "slot-states", "acquire-before-execution@"+fnDisplay(rt), call.Pos(), "the slot is held (and its release deferred) when the execution starts",
+			c.Decide(st.Has("called:acquire") && st.Has(a.slotUndoDeferred("acquire")), "slot-states", "acquire-before-execution@"+fnDisplay(rt), call.Pos(), "the slot is held (and its release deferred) when the execution starts",
 				"RunTask starts the execution without holding a concurrency slot on every path: more than N tasks can execute commands; must-facts: "+st.String())
 		}
 	}
@@ -220,7 +221,7 @@ func c07SemCapacity(c *Check, a *Anchors) {
 				ok = false
 			}
 		}
-		if nReal == 0 {
+		if nReal == 0 && !a.SlotDirect {
 			ok = false
 		}
 		// nil guard: the first statement returns when the semaphore is nil
